@@ -71,10 +71,15 @@ enum Found {
     Free(ItemFn),
 }
 
-fn find_fn(f: &syn::File, ty: &str, name: &str, tr: Option<&str>, nth: usize) -> std::result::Result<Found, String> {
-    let mut hits = vec![];
-    for it in &f.items {
+fn collect_fn_hits(items: &[Item], ty: &str, name: &str, tr: Option<&str>, hits: &mut Vec<Found>) {
+    for it in items {
         match it {
+            // inline modules (`mod misc { impl Story { .. } }`) are searched too
+            Item::Mod(m) => {
+                if let Some((_, inner)) = &m.content {
+                    collect_fn_hits(inner, ty, name, tr, hits);
+                }
+            }
             Item::Impl(im) if !ty.is_empty() => {
                 if self_ty_name(&im.self_ty).as_deref() != Some(ty) {
                     continue;
@@ -105,6 +110,11 @@ fn find_fn(f: &syn::File, ty: &str, name: &str, tr: Option<&str>, nth: usize) ->
             _ => {}
         }
     }
+}
+
+fn find_fn(f: &syn::File, ty: &str, name: &str, tr: Option<&str>, nth: usize) -> std::result::Result<Found, String> {
+    let mut hits = vec![];
+    collect_fn_hits(&f.items, ty, name, tr, &mut hits);
     if hits.is_empty() {
         return Err(format!("lost-anchor fn {ty}::{name}"));
     }
@@ -458,8 +468,8 @@ pub fn run(repo: &str, unit_path: &str, canary: bool) -> std::result::Result<Run
                     Found::Free(func) => (func.sig, *func.block, false),
                 };
                 let _ = attrs_unsafe;
-                let src_line = sig.ident.span().start().line;
-                let orig_text = norm(&body.to_token_stream());
+                let mut src_line = sig.ident.span().start().line;
+                let mut orig_text = norm(&body.to_token_stream());
                 let orig_sig = norm(&sig.to_token_stream());
                 if !optdesugar.is_empty() {
                     let mut od = OptDesugar { methods: optdesugar.clone(), log: vec![] };
@@ -512,6 +522,8 @@ pub fn run(repo: &str, unit_path: &str, canary: bool) -> std::result::Result<Run
                         blk.stmts.push(Stmt::Expr(te, None));
                     }
                     body = blk;
+                    orig_text = norm(&body.to_token_stream());
+                    src_line = line;
                     rewrites.push(json!({"rule": "R12", "in": target, "file": file, "src_line": line,
                         "before": format!("match arm `{armtxt}` of {target}"), "after": "lifted into a function of its own (locals it uses become parameters; the dispatcher around it is dropped)"}));
                 } else {
@@ -683,6 +695,13 @@ pub fn run(repo: &str, unit_path: &str, canary: bool) -> std::result::Result<Run
                             "contract": contract.join("\n"),
                             "trait_impl": is_trait_impl,
                         });
+                        if newname != name {
+                            // lifted closure / match arm / renamed function: the name Verus knows it by
+                            let tyname = target.rsplit_once("::").map(|(t, _)| t.to_string()).unwrap_or_default();
+                            rec["emitted_as"] = json!(format!("{tyname}::{newname}"));
+                            if let Some(a) = o.get("arm") { rec["lifted"] = json!(format!("match arm `{a}`")); }
+                            if let Some(c) = o.get("closure") { rec["lifted"] = json!(format!("closure #{c}")); }
+                        }
                     }
                 }
                 if !sigonly {
